@@ -2,6 +2,7 @@
 from .. import vlib, layouts, codec_cases as cc
 from ..common import proof_part, report_diffs
 from .c02 import run_pair, next_case
+from .. import spec
 
 TB = ["Coq 8.16.1 kernel; no axioms", "zvt2coq translator (reply enums, control fields regenerated)",
       "coq/spec/Spec.v reply-set table (hand transcription of ZVT ch. 2 / Feig manual)",
@@ -20,7 +21,7 @@ def check(run):
         bodies = ["-"]
         targets = [t for _, t in e["variants"]]
         # a body valid for one of its variants, one valid for a packet of another enum, random ones
-        for t in (targets if th else targets[:2]):
+        for t in targets:
             for _ in range(10):
                 v, b = layouts.gen_struct_value(rng, S[t])
                 body = b[3:] if len(b) >= 3 and b[2] != 0xff else None
@@ -43,6 +44,8 @@ def check(run):
     diffs = []
     if mo is not None:
         cfs = {e["name"]: [tuple(S[t]["control"]) for _, t in e["variants"]] for e in L["enums"]}
+        spec_sets = {e["name"]: spec.reply_set_of_enum(L, e["name"]) for e in L["enums"]}
+        run.coverage["enums_with_spec_reply_set"] = sum(1 for v in spec_sets.values() if v is not None)
         # oracle on the implementation alone
         dec_cases, dec_expect = [], []
         k = 0
@@ -59,6 +62,13 @@ def check(run):
                         run.violation(kind="input", case=e, expected="Err (shorter than two bytes)", observed=i, how_found="oracle")
                 else:
                     cf = (bs[0], bs[1])
+                    ss = spec_sets.get(f[1])
+                    if ss is not None and cf not in ss and not i.startswith("Err "):
+                        run.violation(kind="input", case=e, expected="Err (control field %02x %02x is outside the specified reply set of this command)" % cf,
+                                      observed=i[:200], how_found="oracle")
+                    if ss is not None and cf in ss and i == "Err WrongTag:0":
+                        run.violation(kind="input", case=e, expected="dispatch to the variant for %02x %02x (it is in the specified reply set)" % cf,
+                                      observed=i, how_found="oracle")
                     if cf not in cfs[f[1]]:
                         if not i.startswith("Err "):
                             run.violation(kind="input", case=e, expected="Err (control field %02x %02x is outside the reply set)" % cf,
